@@ -192,7 +192,6 @@ def reference(directive, flags, width):
             return [(z3.BoolVal(True), digs + [48] * max(n - 9, 0))]
         return with_width(f)
     if directive in ('z', ':z', '::z', 'Z'):
-        if flags and any(f in '-_' for f in flags): return None
         h, m, s = fval('off_h'), fval('off_m'), fval('off_s')
         neg = z3.Or(h < 0, m < 0, s < 0)
         def two(v): return [z3.URem(z3.UDiv(v, z3.BitVecVal(10, 32)), z3.BitVecVal(10, 32)) + 48, z3.URem(v, z3.BitVecVal(10, 32)) + 48]
@@ -201,7 +200,14 @@ def reference(directive, flags, width):
             tail = (lit(':') if directive != 'z' else []) + two(am) + ((lit(':') + two(as_)) if directive == '::z' else [])
             body_len = 1 + 2 + len(tail)
             pad = 0 if w is None else max(w - body_len, 0)
-            return [(neg, lit('-') + [48] * pad + two(ah) + tail), (z3.Not(neg), lit('+') + [48] * pad + two(ah) + tail)]
+            if style != 'space':        # `-` is not honoured by z (documented in the code); zero padding sits between the sign and the hours
+                return [(neg, lit('-') + [48] * pad + two(ah) + tail), (z3.Not(neg), lit('+') + [48] * pad + two(ah) + tail)]
+            # `_`: the sign of the OFFSET (not of the hour field: -00:30 is negative), hours without a leading zero, blanks in front up to the requested width
+            rows = []
+            for sg, sc in ((neg, '-'), (z3.Not(neg), '+')):
+                rows.append((z3.And(sg, z3.UGE(ah, 10)), [32] * max(pad - 1, 0) + lit(sc) + two(ah) + tail))
+                rows.append((z3.And(sg, z3.ULT(ah, 10)), [32] * pad + lit(sc) + [z3.URem(ah, z3.BitVecVal(10, 32)) + 48] + tail))
+            return rows
         return with_width(f)
     COMPOSITE = {'F': ['Y', '-', 'm', '-', 'd'], 'R': ['H', ':', 'M'], 'T': ['H', ':', 'M', ':', 'S'], 'X': ['H', ':', 'M', ':', 'S'], 'D': ['m', '/', 'd', '/', 'y'], 'x': ['m', '/', 'd', '/', 'y'],
                  'r': ['I', ':', 'M', ':', 'S', ' ', 'p'], 'c': ['a', ' ', 'b', ' ', 'e', ' ', 'H', ':', 'M', ':', 'S', ' ', 'Y'], 'v': ['e', '-', '^b', '-', 'Y']}
